@@ -150,6 +150,56 @@ func (c *Ctx) errorUses(f *ssa.Function, calleeOK func(cc *ssa.CallCommon) (stri
 				out = append(out, errUse{g, ci, name, "lostonpath", "there is a path to a success return (" + c.pos(where) + ") on which this error is never looked at: it is overwritten or abandoned before any test"})
 				return
 			}
+			// loop rule: an error produced inside a loop must not be carried round the loop: if every nil-test
+			// of it sends the non-nil case on to the next iteration, the next call overwrites it and only the
+			// last iteration's error can reach the caller
+			if loop := loopOf(b); loop != nil && len(tests) > 0 {
+				staysInLoop := true
+				for _, iff := range tests {
+					bo := iff.Cond.(*ssa.BinOp)
+					nonNil := iff.Block().Succs[0]
+					if bo.Op == token.EQL {
+						nonNil = iff.Block().Succs[1]
+					}
+					if !loop[iff.Block()] {
+						staysInLoop = false // tested after the loop: handled by the path rule
+						continue
+					}
+					// does the non-nil side come back to this call without leaving the function?
+					if !(nonNil == b || blockReaches(nonNil, b)) || !loop[nonNil] {
+						staysInLoop = false
+					}
+				}
+				// and the value is what the function finally returns
+				returned := false
+				if idx := errResultIndex(g.Signature); idx >= 0 {
+					for _, r := range returnsOf(g) {
+						if loop[r.Block()] || idx >= len(r.Results) {
+							continue
+						}
+						// a return under `e == nil` hands back a nil error, not the failure
+						underNil := guardedBy(r.Block(), func(cond ssa.Value) (bool, bool) {
+							bo, ok := cond.(*ssa.BinOp)
+							if !ok || (bo.Op != token.EQL && bo.Op != token.NEQ) || !isNilConst(bo.Y) || bo.X != e {
+								return false, false
+							}
+							return true, bo.Op == token.EQL
+						})
+						if underNil {
+							continue
+						}
+						for _, leaf := range phiLeaves(r.Results[idx]) {
+							if leaf == e {
+								returned = true
+							}
+						}
+					}
+				}
+				if staysInLoop && returned {
+					out = append(out, errUse{g, ci, name, "overwritteninloop", "inside a loop the error is tested but the failing case goes on to the next iteration, where the next call overwrites it: only the last iteration's error is returned, earlier failures are silently swallowed while the loop keeps running its side effects"})
+					return
+				}
+			}
 			// propagation: on the non-nil branch, returns carry a non-nil error
 			if idx := errResultIndex(g.Signature); idx >= 0 {
 				for _, iff := range tests {
